@@ -69,6 +69,17 @@ func (p c07) Run(c *core.Ctx) {
 		types = append(types, pool[c.Rng.Intn(len(pool))])
 	}
 	g := RandomPopulation(c.Rng, PopOpts{MinP: 3, MaxP: 16, Types: types, PUnnamed: 0.3})
+	if c.Rng.Intn(4) == 0 {
+		// custom names that look like a tag argument ("tier=gold"): the text before the first comma is the name
+		renamed := 0
+		for i := range g.Sc.Nodes {
+			if g.Sc.Nodes[i].Name != "" && c.Rng.Intn(2) == 0 {
+				g.Sc.Nodes[i].Name = fmt.Sprintf("%s=%s%d", []string{"tier", "required", "qualifier", "k"}[c.Rng.Intn(4)], []string{"gold", "false", "x"}[c.Rng.Intn(3)], i)
+				renamed++
+			}
+		}
+		c.Count("names_with_equals_sign", renamed)
+	}
 	mixName := TagMix{ByName: 4, ByNameAbsent: 1, ByNameIncompatible: 1, POptional: 0.4}
 	mixOther := TagMix{ByType: 2, Func: 0.5, ByName: 1, PQualifier: 0.3, POptional: 0.7}
 	single := func(si world.SlotInfo) bool { return si.Kind == "ptr" || si.Kind == "iface" }
